@@ -169,6 +169,9 @@ func (v *VM) treeDump(w io.Writer, tree []*token) {
 		return
 	}
 	for _, t := range tree {
+		if len(t.Tokens) == 0 {
+			continue // nothing to dump for an empty program
+		}
 		s := t.String()
 		s = s[3 : len(s)-1]
 		w.Write([]byte(s + "\n"))
